@@ -36,6 +36,7 @@ func (g *graph) process(ctx context.Context, e *Event) (Status, error) {
 	var wg sync.WaitGroup
 	go func() {
 		g.roots.Range(func(_ PipelineID, pipeline *registeredPipeline) bool {
+			verifPoint(ctx, "range.root")
 			select {
 			// Don't continue to start root nodes if our context is already done.
 			// We would just process the node and then drop the status, and no
@@ -49,12 +50,16 @@ func (g *graph) process(ctx context.Context, e *Event) (Status, error) {
 			g.doProcess(ctx, pipeline.rootNode, e, statusChan, &wg)
 			return true
 		})
+		verifPoint(ctx, "range.wait")
 		wg.Wait()
+		verifPoint(ctx, "range.close")
 		close(statusChan)
+		verifPoint(ctx, "range.exit")
 	}()
 	var status Status
 	var done bool
 	for !done {
+		verifPoint(ctx, "collect.select")
 		select {
 		case <-ctx.Done():
 			done = true
@@ -83,10 +88,14 @@ func (g *graph) process(ctx context.Context, e *Event) (Status, error) {
 //     the sink node's ID
 func (g *graph) doProcess(ctx context.Context, node *linkedNode, e *Event, statusChan chan Status, wg *sync.WaitGroup) {
 	defer wg.Done()
+	defer verifPoint(ctx, "node.exit")
+	verifPoint(ctx, "node.enter")
 
 	// Process the current Node
 	e, err := node.node.Process(ctx, e)
+	verifPoint(ctx, "node.returned")
 	if err != nil {
+		verifPoint(ctx, "status.send")
 		select {
 		case <-ctx.Done():
 		case statusChan <- Status{Warnings: []error{err}}:
@@ -101,6 +110,7 @@ func (g *graph) doProcess(ctx context.Context, node *linkedNode, e *Event, statu
 
 	// If the Event is nil, it has been filtered out and we are done.
 	if e == nil {
+		verifPoint(ctx, "status.send")
 		select {
 		case <-ctx.Done():
 		case statusChan <- completeStatus:
@@ -117,10 +127,12 @@ func (g *graph) doProcess(ctx context.Context, node *linkedNode, e *Event, statu
 		}
 
 		for _, child := range node.next {
+			verifPoint(ctx, "child.spawn")
 			wg.Add(1)
 			go g.doProcess(ctx, child, e, statusChan, wg)
 		}
 	} else {
+		verifPoint(ctx, "status.send")
 		select {
 		case <-ctx.Done():
 		case statusChan <- completeStatus:
